@@ -149,6 +149,9 @@ def oracle(case: dict):
                         return ("order-tables", f"{name}: the placeholder entry {k} has lost its row in the comment table")
                 if not assoc_eq(deep_strip(gen.plain(dict(sx))), deep_strip(gen.plain(dict(s0)))):
                     return ("order-assoc", f"{name} on a commented dict changed the association")
+                # placeholder entries are keys like any other string key: the whole key sequence is in order
+                if not is_sorted_deep(gen.plain(dict(sx))):
+                    return ("order-unsorted", f"{name} on a commented dict: top-level keys {list(gen.plain(dict(sx)))!r} are not in ascending order (ints first, then strings)")
             out = fo.read_text()
             for c in case["comments"]:
                 if c not in out:
@@ -323,10 +326,11 @@ def run(ctx):
         ks = rng.sample(["zeta", "alpha", "mid", "b2", "Beta", "k9"], 4)
         cm = [f"// note {i} {j}" for j in range(4)] + [f"/* block {i} */"]
         ik = rng.sample(["n", "m", "k", "a"], 3)
-        text = (f"{cm[0]}\n{ks[0]} {{ {cm[1]}\n  {ik[0]} 2; {ik[1]} 1; }}\n"
+        text = (f"/* top block {i} */\n{rng.choice([7, 12])} seven;\nAlpha {i};\n"
+                f"{cm[0]}\n{ks[0]} {{ {cm[1]}\n  {ik[0]} 2; {ik[1]} 1; }}\n"
                 f"{ks[1]} ( {{ {cm[2]}\n  {ik[2]} 2; {ik[0]} 1; }} {{ {cm[4]} {ik[1]} 1; }} 3 );\n"
                 f"{ks[2]} 7;\n{ks[3]} {{ sub {{ {cm[3]}\n {ik[1]} 1; {ik[0]} 0; }} }}\n")
-        c = {"kind": "commented", "t": {}, "text": text, "comments": cm}
+        c = {"kind": "commented", "t": {}, "text": text, "comments": [*cm, f"/* top block {i} */"]}
         r = oracle(c)
         if r:
             ctx.oracle_fail(c, r[0], r[1])
